@@ -829,6 +829,27 @@ Example ensure_dir_example :
   = [Mkdir [[98]; [97]]; Chmod [[98]; [97]]; Mkdir [[99]; [98]; [97]]; Chmod [[99]; [98]; [97]]].
 Proof. vm_compute. reflexivity. Qed.
 
+(* the legend file: for a digest made of hex digits, one safe name directly in the legend cache directory *)
+Lemma legend_location_resolves cwd cache_dir h ext :
+  h <> [] -> Forall digitish h -> ~ In 47 (s2z ext) ->
+  safe (h ++ 46 :: s2z ext) /\
+  resolve cwd (legend_location cache_dir h ext) = resolve cwd cache_dir ++ [h ++ 46 :: s2z ext].
+Proof.
+  intros Hne Hd He.
+  assert (S : safe (h ++ 46 :: s2z ext)).
+  { apply safe_digit_led; try assumption. intros [K|K]; [discriminate|contradiction]. }
+  split; [exact S|]. unfold legend_location.
+  assert (Sh : safe (h ++ [])) by (apply safe_num; assumption). rewrite app_nil_r in Sh.
+  rewrite join1_app_suffix; [|exact Hne|apply safe_starts47; exact Sh].
+  change (join1 cache_dir (h ++ 46 :: s2z ext)) with (posix_join cache_dir [h ++ 46 :: s2z ext]).
+  apply safe_join_resolves. constructor; [exact S|constructor].
+Qed.
+
+(* with the request's SCALE text in the name (the code must not do that) the legend file leaves the directory *)
+Example legend_raw_scale_escapes :
+  is_prefix (resolve [] [47; 108]) (resolve [] (legend_location [47; 108] ([97; 45] ++ [46; 46; 47; 46; 46; 47; 46; 46; 47; 120]) "png")) = false.
+Proof. vm_compute. reflexivity. Qed.
+
 (* ------------------------------------------------------------------ non-vacuity *)
 Definition t_time : str := [116; 105; 109; 101].        (* "time" *)
 Definition t_attack : str := [46; 46; 47; 46; 46; 47; 46; 46; 47; 120].   (* "../../../x" *)
